@@ -40,7 +40,8 @@ def cmd_check(args) -> int:
             # every generator property is also explored after histories of failed builds (vf/failhist.py); C12 runs the
             # full family itself
             from . import failhist  # pylint: disable=import-outside-toplevel
-            failhist.explore_reduced(ctx)
+            # (the process-wide indentation override is part of the family for C08 - "the process it runs in" - and C12 only)
+            failhist.explore_reduced(ctx, overrides=(None, 2) if pid == 'C08' else (None,))
         return core.finish(ctx)
     except core.HarnessError as exc:
         print(f'HARNESS-ERROR {pid}: {exc}')
